@@ -365,12 +365,26 @@ macro_rules! c03_total {
     };
 }
 
-//@ props=C03 tier=quick timeout=1500 mem=29 cap=4 ilist=1 witness=c03_total_6 name=c03_total_8
+//@ props=C03 tier=thorough timeout=2400 mem=29 cap=4 ilist=1 witness=c03_total_6 name=c03_total_8
 //@ functions=Packet::from_bytes, HeaderRaw::try_from, Header::from_raw, MessageClass::from
 //@ bounds=every byte string of length 0..8 (length and all bytes symbolic); unwind 7
 //@ what=never panics/overflows/reads out of bounds (Kani's implicit checks); must-reject => Err; must-accept => Ok (verdict only; field equality is c03_fields_*)
 //@ assumes=option map is the fixed-capacity array model (capacity = max distinct numbers an 8-byte datagram can hold)
 c03_total!(c03_total_8, 8, 7, false);
+
+//@ props=C03 tier=quick timeout=850 mem=16 cap=3 ilist=1 witness=c03_total_6 name=c03_total_7
+//@ functions=Packet::from_bytes, HeaderRaw::try_from, Header::from_raw, MessageClass::from
+//@ bounds=every byte string of length 0..7 (length and all bytes symbolic); unwind 6. The 8-byte form (c03_total_8, 20 minutes) is in the thorough tier: the quick tier has to finish within 15 minutes
+//@ what=never panics/overflows/reads out of bounds (Kani's implicit checks); must-reject => Err; must-accept => Ok
+//@ assumes=option map is the fixed-capacity array model
+c03_total!(c03_total_7, 7, 6, false);
+
+//@ props=C03,C02 tier=quick timeout=850 mem=16 cap=2 ilist=1 witness=c03_total_6 name=c03_framing_6
+//@ functions=Packet::from_bytes
+//@ bounds=every byte string of length 0..6; unwind 6. The 7-byte form (c03_framing_7, 20 minutes) is in the thorough tier
+//@ what=as c03_total_7 plus the framing of an accepted well-formed datagram (version, type, TKL, code, id, number of option values, each option's number and length in wire order, payload length) equals the RFC 7252 reference parse
+//@ assumes=option map is the fixed-capacity array model
+c03_total!(c03_framing_6, 6, 6, true);
 
 //@ props=C03 tier=witness timeout=1200 mem=24 cap=2 ilist=1 name=c03_total_6
 //@ functions=Packet::from_bytes
@@ -378,7 +392,7 @@ c03_total!(c03_total_8, 8, 7, false);
 //@ what=as c03_total_8
 c03_total!(c03_total_6, 6, 6, false);
 
-//@ props=C03,C02 tier=quick timeout=1800 mem=24 cap=3 ilist=1 witness=c03_total_6 name=c03_framing_7
+//@ props=C03,C02 tier=thorough timeout=2400 mem=24 cap=3 ilist=1 witness=c03_total_6 name=c03_framing_7
 //@ functions=Packet::from_bytes, HeaderRaw::try_from, Header::from_raw, MessageClass::from
 //@ bounds=every byte string of length 0..7 (length and all bytes symbolic); unwind 6
 //@ what=as c03_total_8 plus the framing of an accepted well-formed datagram: version, type, token length, code, id, number of option values, each option's number and length (at a symbolic index, repeated numbers in wire order), payload length - all equal to the RFC 7252 reference parse. Byte contents are compared by c03_content_*
